@@ -3,7 +3,7 @@ from __future__ import annotations
 import os, shutil, sys
 from .common import *
 
-FEATURE_SETS = {"default": [], "full": ["--features", "curve,noise_xx"]}
+FEATURE_SETS = {"default": [], "full": ["--features", "curve,noise_xx"], "uring": ["--features", "io-uring"]}
 
 
 def mir_path(features="default"):
